@@ -40,7 +40,7 @@ def ty_src(t):
     if k == "rec":
         return "{%s}" % ", ".join("%s : %s" % (f, ty_src(u)) for f, u in t[1])
     if k == "enum":
-        return "[| %s |]" % ", ".join("'" + x for x in t[1])
+        return "[| %s |]" % ", ".join(("'" + x) if u is None else "'%s (%s)" % (x, ty_src(u)) for x, u in t[1])
     if k == "dict":
         return "{_ : %s}" % ty_src(t[1])
     raise ValueError(t)
@@ -57,7 +57,7 @@ def ty_sexp(t):
     if k == "rec":
         return "(rec %s)" % " ".join('("%s" %s)' % (f, ty_sexp(u)) for f, u in t[1])
     if k == "enum":
-        return "(enum %s)" % " ".join('"%s"' % x for x in t[1])
+        return "(enum %s)" % erows_sexp(t[1])
     if k == "dict":
         return "(dict %s)" % ty_sexp(t[1])
     if k == "tvar":
@@ -67,10 +67,20 @@ def ty_sexp(t):
     raise ValueError(t)
 
 
+def erows_sexp(rows):
+    return " ".join(('"%s"' % x) if u is None else '("%s" %s)' % (x, ty_sexp(u)) for x, u in rows)
+
+
+def bare(*tags):
+    return ("enum", tuple((t, None) for t in sorted(tags)))
+
+
 def first_order(t):
     k = t[0]
-    if k in ("num", "str", "bool", "dyn", "enum"):
+    if k in ("num", "str", "bool", "dyn"):
         return True
+    if k == "enum":
+        return all(u is None or first_order(u) for _, u in t[1])
     if k in ("arr", "dict"):
         return first_order(t[1])
     if k == "rec":
@@ -152,7 +162,8 @@ class Frag:
             return ("rec", tuple((f, self.gen_type(depth - 1, fun_ok)) for f in fs))
         if c == "enum":
             n = r.range(1, 3)
-            return ("enum", tuple(sorted(r.shuffle(TAGS)[:n])))
+            return ("enum", tuple((t, self.gen_type(depth - 1, fun_ok) if r.chance(1, 3) else None)
+                                  for t in sorted(r.shuffle(TAGS)[:n])))
         if c == "fun":
             return ("fun", self.gen_type(depth - 1, False), self.gen_type(depth - 1, fun_ok))
         return c
@@ -179,7 +190,11 @@ class Frag:
         if k == "rec":
             return N("rec", [[(f, self.gen(ctx, u, max(1, size // (len(T[1]) + 1)))) for f, u in T[1]]], T)
         if k == "enum":
-            return N("tag", [r.choice(T[1])], T)
+            t, u = r.choice(T[1])
+            if u is None:
+                return N("tag", [t], T)
+            self.features.add("variant")
+            return N("variant", [t, self.gen(ctx, u, max(1, size - 1))], T)
         if k == "dict":
             # a record literal (whose own type is a record type) used where a dictionary is expected
             fs = sorted(r.shuffle(FIELDS)[:r.range(0, 3)])
@@ -285,7 +300,7 @@ class Frag:
             self.features.add("compare")
             return N("prim2", [nm, self.gen(ctx, NUM, h), self.gen(ctx, NUM, h)], T, x=[])
         if p == "eq":
-            U = r.choice([NUM, STR, BOOL, ("enum", ("A", "B"))])
+            U = r.choice([NUM, STR, BOOL, bare("A", "B")])
             self.features.add("==")
             return N("prim2", ["eq", self.gen(ctx, U, h), self.gen(ctx, U, h)], T, x=[U, U])
         if p == "not":
@@ -312,14 +327,21 @@ class Frag:
             return N("proj", [self.gen(ctx, R, size - 1), f], T)
         if p == "match":
             n = r.range(1, 3)
-            tags = tuple(sorted(r.shuffle(TAGS)[:n]))
-            s = self.gen(ctx, ("enum", tags), h)
+            rows = tuple((t, self.gen_type(1, False) if r.chance(1, 3) else None) for t in sorted(r.shuffle(TAGS)[:n]))
+            s = self.gen(ctx, ("enum", rows), h)
             default = r.chance(1, 3)
-            arms = list(tags)
+            arms = list(rows)
             if default and len(arms) > 1:
                 arms = arms[:-1]
-            bs = [(t, self.gen(ctx, T, max(1, h // len(tags)))) for t in arms]
-            d = self.gen(ctx, T, max(1, h // len(tags))) if default else None
+            bs = []
+            for t, u in arms:
+                if u is None:
+                    bs.append((t, None, self.gen(ctx, T, max(1, h // len(rows)))))
+                else:
+                    x = self.fresh()
+                    self.features.add("match-variant-binder")
+                    bs.append((t, x, self.gen(ctx + [(x, u)], T, max(1, h // len(rows)))))
+            d = self.gen(ctx, T, max(1, h // len(rows))) if default else None
             self.features.add("match-default" if default else "match")
             return N("match", [s, bs, d], T)
         if p == "subvar":
@@ -402,8 +424,11 @@ class Frag:
         k = T[0]
         if k == "dyn":
             return self.untyped_value(r.choice([NUM, STR, BOOL, ("arr", NUM)]), depth)
-        if k in ("num", "str", "bool", "enum"):
+        if k in ("num", "str", "bool"):
             base = self.lit(T, [], 1)
+        elif k == "enum":
+            t, u = r.choice(T[1])
+            base = N("tag", [t]) if u is None else N("variant", [t, self.untyped_value(u, depth + 1)])
         elif k == "arr":
             base = N("arr", [[self.untyped_value(T[1], depth + 1) for _ in range(r.range(0, 2))]])
         elif k == "rec":
@@ -432,7 +457,7 @@ class Frag:
         if flavour == "good":
             return self.untyped_value(T)
         if flavour == "wrong-kind":
-            others = [U for U in [NUM, STR, BOOL, ("arr", NUM), ("rec", (("fa", NUM),)), ("enum", ("Zz",))]
+            others = [U for U in [NUM, STR, BOOL, ("arr", NUM), ("rec", (("fa", NUM),)), bare("Zz")]
                       if U[0] != T[0] and T[0] != "dyn"]
             if T[0] == "rec":
                 c = r.below(3)
@@ -449,7 +474,14 @@ class Frag:
                 inner = [U for U in [NUM, STR, BOOL] if U[0] != T[1][0]]
                 return self.untyped_value(("arr", r.choice(inner)))
             if T[0] == "enum":
-                return self.untyped_value(("enum", ("Zz",)))
+                c = r.below(3)
+                payload = [(t, u) for t, u in T[1] if u is not None]
+                if c == 0 and payload:       # right tag, ill-kinded payload
+                    t, u = r.choice(payload)
+                    return N("variant", [t, self.untyped_value(STR if u[0] != "str" else NUM)])
+                if c == 1 and payload:       # payload missing
+                    return N("tag", [r.choice(payload)[0]])
+                return self.untyped_value(bare("Zz"))
             if T[0] == "dict" and r.chance(1, 2):
                 inner = [U for U in [NUM, STR, BOOL] if U[0] != T[1][0]]
                 return self.untyped_value(("rec", (("fa", r.choice(inner)),)))
@@ -463,7 +495,7 @@ class Frag:
             return N("prim2", ["add", N("str", ["a"]), N("num", [1, 1])])
         if c == 2:
             return N("proj", [N("rec", [[("fa", N("num", [1, 1]))]]), "zz"])
-        return N("match", [N("tag", ["Zq"]), [("Zr", N("num", [1, 1]))], None])
+        return N("match", [N("tag", ["Zq"]), [("Zr", None, N("num", [1, 1]))], None])
 
     # ------------------------------------------------------------------ whole programs
     def program(self, size):
@@ -521,6 +553,10 @@ class Printer:
             self.out(a[0])
         elif k == "tag":
             self.out("'" + a[0])
+        elif k == "variant":
+            self.out("('%s " % a[0])
+            self.term(a[1])
+            self.out(")")
         elif k == "lam":
             self.out("(fun ")
             xs = self.pos
@@ -581,11 +617,11 @@ class Printer:
             self.term(a[0])
             self.out(" |> match { ")
             first = True
-            for t, b in a[1]:
+            for t, x, b in a[1]:
                 if not first:
                     self.out(", ")
                 first = False
-                self.out("'%s => " % t)
+                self.out("'%s => " % t if x is None else "'%s %s => " % (t, x))
                 self.term(b)
             if a[2] is not None:
                 if not first:
@@ -655,6 +691,8 @@ def to_sexp(n):
         return '(var "%s")' % a[0]
     if k == "tag":
         return '(tag "%s")' % a[0]
+    if k == "variant":
+        return '(variant "%s" %s)' % (a[0], to_sexp(a[1]))
     if k == "lam":
         return '(lam "%s" %s)' % (a[0], to_sexp(a[1]))
     if k == "app":
@@ -675,7 +713,8 @@ def to_sexp(n):
     if k == "proj":
         return '(proj %s "%s")' % (to_sexp(a[0]), a[1])
     if k == "match":
-        bs = "(%s)" % " ".join('("%s" %s)' % (t, to_sexp(b)) for t, b in a[1])
+        bs = "(%s)" % " ".join(('("%s" %s)' % (t, to_sexp(b))) if x is None else '("%s" "%s" %s)' % (t, x, to_sexp(b))
+                               for t, x, b in a[1])
         if a[2] is not None:
             return "(match %s %s %s)" % (to_sexp(a[0]), bs, to_sexp(a[2]))
         return "(match %s %s)" % (to_sexp(a[0]), bs)
@@ -712,7 +751,9 @@ def to_cert(n):
     if k == "var":
         return '(avar "%s" %s)' % (a[0], insts_sexp(n.x if isinstance(n.x, list) else []))
     if k == "tag":
-        return '(atag "%s" (%s))' % (a[0], " ".join('"%s"' % t for t in n.ty[1]))
+        return '(atag "%s" (%s))' % (a[0], erows_sexp(n.ty[1]))
+    if k == "variant":
+        return '(avariant "%s" %s (%s))' % (a[0], to_cert(a[1]), erows_sexp(n.ty[1]))
     if k == "lam":
         return '(alam "%s" %s %s)' % (a[0], ty_sexp(n.ty[1]), to_cert(a[1]))
     if k == "app":
@@ -733,7 +774,8 @@ def to_cert(n):
     if k == "proj":
         return '(aproj %s "%s")' % (to_cert(a[0]), a[1])
     if k == "match":
-        bs = "(%s)" % " ".join('("%s" %s)' % (t, to_cert(b)) for t, b in a[1])
+        bs = "(%s)" % " ".join(('("%s" %s)' % (t, to_cert(b))) if x is None else '("%s" "%s" %s)' % (t, x, to_cert(b))
+                               for t, x, b in a[1])
         d = (" " + to_cert(a[2])) if a[2] is not None else ""
         return "(amatch %s %s %s%s)" % (to_cert(a[0]), ty_sexp(n.ty), bs, d)
     if k == "prim2":
@@ -785,10 +827,16 @@ def conv_tc_type(t):
             fs.append((r[0][1], u))
         return ("rec", tuple(sorted(fs))) if t[2] == "closed" else ("rec-open", tuple(sorted(fs)))
     if h == "enum":
-        if any(len(r) > 1 for r in t[1]):
-            return None
-        tags = tuple(sorted(r[0][1] for r in t[1]))
-        return ("enum", tags) if t[2] == "closed" else ("enum-open", tags)
+        rows = []
+        for r in t[1]:
+            u = None
+            if len(r) > 1:
+                u = conv_tc_type(r[1])
+                if u is None:
+                    return None
+            rows.append((r[0][1], u))
+        rows = tuple(sorted(rows, key=lambda x: x[0]))
+        return ("enum", rows) if t[2] == "closed" else ("enum-open", rows)
     if h == "forall":
         # the quantified type of an annotated helper: its body, with the quantified names rigid
         return conv_tc_type(t[3])
@@ -809,7 +857,8 @@ def ty_match(real, want):
         # the name of the quantifier it instantiates
         return True
     if k == "enum-open":
-        return want[0] == "enum" and set(real[1]) <= set(want[1])
+        return want[0] == "enum" and all(any(t == t2 and ((u is None) == (u2 is None)) and (u is None or ty_match(u, u2))
+                                             for t2, u2 in want[1]) for t, u in real[1])
     if k == "rec-open":
         return want[0] == "rec" and all(any(f == g and ty_match(u, v) for g, v in want[1]) for f, u in real[1])
     if k == "rec" and want[0] == "dict":
@@ -830,11 +879,14 @@ def ty_match(real, want):
     if k == "rec":
         return len(real[1]) == len(want[1]) and all(f == g and ty_match(u, v) for (f, u), (g, v) in zip(real[1], want[1]))
     if k == "enum":
-        return real[1] == want[1]
+        return len(real[1]) == len(want[1]) and all(
+            t == t2 and ((u is None) == (u2 is None)) and (u is None or ty_match(u, u2))
+            for (t, u), (t2, u2) in zip(real[1], want[1]))
     return False
 
 
-KIND_OF = {"num": "Number", "str": "String", "bool": "Bool", "var": "Var", "tag": "EnumVariant", "lam": "Fun",
+KIND_OF = {"num": "Number", "str": "String", "bool": "Bool", "var": "Var", "tag": "EnumVariant", "variant": "EnumVariant",
+           "lam": "Fun",
            "app": "App", "let": "Let", "if": "IfThenElse", "arr": "Array", "rec": "Record", "annt": "Annotated",
            "hole": "Annotated", "match": "App", "prim2": None, "prim1": None, "proj": "PrimOpApp"}
 
@@ -991,7 +1043,13 @@ def default_type(t):
             fs.append((f, d))
         return ("rec", tuple(fs))
     if k in ("enum", "enum-open"):
-        return ("enum", tuple(t[1]))
+        rows = []
+        for x, u in t[1]:
+            d = None if u is None else default_type(u)
+            if u is not None and d is None:
+                return None
+            rows.append((x, d))
+        return ("enum", tuple(rows))
     return None
 
 
@@ -1147,13 +1205,27 @@ class CertBuilder:
             if a[0] not in env:
                 raise CertError("unbound %s" % a[0])
             if env[a[0]][0] == "poly":
-                raise CertError("polymorphic helper %s used outside an application" % a[0])
+                # a polymorphic helper used as a value: instantiated at the type its context requires
+                nq = POLY[a[0]][0]
+                body = POLY[a[0]][2]().ty
+                out = {}
+                if want is None or not match_poly(body, want, out):
+                    raise CertError("polymorphic helper %s used as a value of unknown instance" % a[0])
+                iv = [out.get(i, NUM) for i in range(nq)]
+                return '(avar "%s" %s)' % (a[0], insts_sexp([iv[nq - 1 - i] for i in range(nq)])), subst_tvars(body, iv)
             return '(avar "%s" ())' % a[0], env[a[0]]
         if k == "tag":
             t = self.tc(n)
-            if t[0] != "enum" or a[0] not in t[1]:
+            if t[0] != "enum" or (a[0], None) not in t[1]:
                 raise CertError("tag %s typed %r" % (a[0], t))
-            return '(atag "%s" (%s))' % (a[0], " ".join('"%s"' % x for x in t[1])), t
+            return '(atag "%s" (%s))' % (a[0], erows_sexp(t[1])), t
+        if k == "variant":
+            t = self.tc(n)
+            pay = dict(t[1]).get(a[0]) if t[0] == "enum" else None
+            if pay is None:
+                raise CertError("variant %s typed %r" % (a[0], t))
+            ce, Te = self.build(a[1], env, pay)
+            return '(avariant "%s" %s (%s))' % (a[0], self.coerce(ce, Te, pay, "payload"), erows_sexp(t[1])), t
         if k == "lam":
             t = self.tc(n)
             if t[0] != "fun":
@@ -1164,8 +1236,15 @@ class CertBuilder:
             return '(alam "%s" %s %s)' % (a[0], ty_sexp(t[1]), cb), ("fun", t[1], B)
         if k == "app":
             f, arg = a
+            poly_head = f.k == "var" and env.get(f.a[0], ("",))[0] == "poly"
+            if not poly_head:
+                cf, Tf = self.build(f, env)
+                if Tf[0] != "fun":
+                    raise CertError("application of a term of type %s" % ty_sexp(Tf))
+                ca, Ta = self.build(arg, env, Tf[1])
+                return "(aapp %s %s)" % (cf, self.coerce(ca, Ta, Tf[1], "argument")), Tf[2]
             ca, Ta = self.build(arg, env)
-            if f.k == "var" and env.get(f.a[0], ("",))[0] == "poly":
+            if poly_head:
                 nq = POLY[f.a[0]][0]
                 body = POLY[f.a[0]][2]().ty
                 out = {}
@@ -1206,15 +1285,18 @@ class CertBuilder:
             return '(alet "%s" %d %s %s)' % (a[0], nq, ce, cb), Tb
         if k == "if":
             cc, Tc = self.build(a[0], env)
+            if want is None:
+                want = self.tc(n, need=False)      # both branches are checked against the type of the whole
             w2, (ct, ce) = self.join(n, [self.build(a[1], env, want), self.build(a[2], env, want)], "if branch")
             return "(aif %s %s %s)" % (self.coerce(cc, Tc, BOOL, "condition"), ct, ce), w2
         if k == "arr":
             t = self.tc(n)
             if t[0] != "arr":
                 raise CertError("array typed %r" % (t,))
-            elw = want[1] if want is not None and want[0] == "arr" else None
+            # the elements are checked against the element type (the context's, else the one the typechecker resolved)
+            elw = want[1] if want is not None and want[0] == "arr" else t[1]
             parts = [self.build(e, env, elw) for e in a[0]]
-            el = elw if elw is not None and all(py_subb(T, elw) for _, T in parts) else t[1]
+            el = elw if all(py_subb(T, elw) for _, T in parts) else t[1]
             if parts and not all(py_subb(T, el) for _, T in parts):
                 el = parts[0][1]
             return "(aarr %s (%s))" % (ty_sexp(el), " ".join(self.coerce(c, T, el, "array element") for c, T in parts)), ("arr", el)
@@ -1237,11 +1319,26 @@ class CertBuilder:
             cs, Ts = self.build(a[0], env)
             if Ts[0] != "enum":
                 raise CertError("match on %s" % ty_sexp(Ts))
-            parts = [self.build(b, env, want) for _, b in a[1]] + ([self.build(a[2], env, want)] if a[2] is not None else [])
+            if want is None:
+                want = self.tc(n, need=False)      # every arm is checked against the type of the whole
+            parts = []
+            for t, x, b in a[1]:
+                if x is None:
+                    parts.append(self.build(b, env, want))
+                else:
+                    pay = dict(Ts[1]).get(t)
+                    if pay is None:
+                        raise CertError("arm '%s %s of a match on %s" % (t, x, ty_sexp(Ts)))
+                    e2 = dict(env)
+                    e2[x] = pay
+                    parts.append(self.build(b, e2, want))
+            if a[2] is not None:
+                parts.append(self.build(a[2], env, want))
             if not parts:
                 raise CertError("match without arms")
             w2, cs2 = self.join(n, parts, "match arm")
-            bs = "(%s)" % " ".join('("%s" %s)' % (t, c) for (t, _), c in zip(a[1], cs2))
+            bs = "(%s)" % " ".join(('("%s" %s)' % (t, c)) if x is None else '("%s" "%s" %s)' % (t, x, c)
+                                   for (t, x, _), c in zip(a[1], cs2))
             d = (" " + cs2[-1]) if a[2] is not None else ""
             return "(amatch %s %s %s%s)" % (cs, ty_sexp(w2), bs, d), w2
         if k in ("prim2", "prim1"):
@@ -1338,7 +1435,7 @@ OTHER_PRIM2 = {"add": ["concat", "lt", "arrcat"], "sub": ["concat", "eq"], "mul"
 
 
 def other_type(T, rng):
-    cands = [U for U in [NUM, STR, BOOL, ("arr", NUM), ("enum", ("A",)), ("rec", (("fa", NUM),))] if U != T]
+    cands = [U for U in [NUM, STR, BOOL, ("arr", NUM), bare("A"), ("rec", (("fa", NUM),))] if U != T]
     return rng.choice(cands)
 
 
@@ -1348,7 +1445,30 @@ def mutate(prog, rng):
     T = prog["type"]
     nodes = typed_nodes(ast, [])
     what = None
+    # scope mutation: use the payload binder of an earlier match arm in a later arm (or in the wildcard arm)
+    if rng.chance(1, 6):
+        ms = [m for m in nodes if m.k == "match" and any(x is not None for _, x, _ in m.a[1])]
+        rng_ms = rng.shuffle(ms)
+        for m in rng_ms:
+            arms = m.a[1]
+            pay = dict(m.a[0].ty[1]) if m.a[0].ty and m.a[0].ty[0] == "enum" else {}
+            done = False
+            for i, (t, x, _) in enumerate(arms):
+                if x is None or pay.get(t) is None:
+                    continue
+                later = [b for _, _, b in arms[i + 1:]] + ([m.a[2]] if m.a[2] is not None else [])
+                cands = [nd for b in later for nd in typed_nodes(b, []) if nd.ty == pay[t] and nd.k != "hole"]
+                if cands:
+                    nd = rng.choice(cands)
+                    nd.k, nd.a, nd.x = "var", [x], None
+                    what = "other-arm-binder"
+                    done = True
+                    break
+            if done:
+                break
     for _ in range(20):
+        if what:
+            break
         n = rng.choice(nodes)
         k = n.k
         c = rng.below(10)
@@ -1382,7 +1502,7 @@ def mutate(prog, rng):
         elif k == "match" and n.a[2] is not None and c < 5:
             n.a[2] = None
             what = "drop-wildcard-arm"
-        elif k == "tag":
+        elif k in ("tag", "variant"):
             n.a[0] = rng.choice([t for t in TAGS + ["Zz"] if t != n.a[0]])
             what = "tag"
         elif k == "annt":
